@@ -51,7 +51,7 @@ func MockSendActions(specs []MockSend) func(m *PktModel, w *world.World, g Ghost
 			if g.Sends["send:"+s.Label] >= max {
 				continue
 			}
-			out = append(out, UserAction{Label: "send:" + s.Label, Run: func(w *world.World) (*world.Chain, world.TxRes) {
+			out = append(out, UserAction{Label: "send:" + s.Label, On: s.Src, Run: func(w *world.World) (*world.Chain, world.TxRes) {
 				c := w.C(s.Src)
 				port := s.Port
 				if port == "" {
@@ -264,4 +264,15 @@ func RunPkt(prop, tier string, models []*PktModel, depth []int, budget time.Dura
 	cov["probe_counters"] = counters
 	cov["probes"] = counters["probes"]
 	return report.Finish(prop, tier, start, "model_checking", cov, assumptions, all)
+}
+
+// Steps chains step oracles.
+func Steps(fs ...func(m *PktModel, w *world.World, ev *StepEvent) []explore.Finding) func(m *PktModel, w *world.World, ev *StepEvent) []explore.Finding {
+	return func(m *PktModel, w *world.World, ev *StepEvent) []explore.Finding {
+		var out []explore.Finding
+		for _, f := range fs {
+			out = append(out, f(m, w, ev)...)
+		}
+		return out
+	}
 }
